@@ -100,7 +100,7 @@ impl IDateTime {
             + (self.time.to_second().second as i64);
         let mut nanosecond = self.time.subsec_nanosecond;
         second -= offset.second as i64;
-        if epoch_day < 0 && nanosecond != 0 {
+        if second < 0 && nanosecond != 0 {
             second += 1;
             nanosecond -= 1_000_000_000;
         }
